@@ -36,8 +36,8 @@ PROPS = {
     'C06': dict(verus=['pbgen'], kani=K_PB + ['bnd_pb_merge_repeated_packed'], assumptions=A_COMMON[:1] + ['format! on error paths is stubbed in the Kani harnesses'],
                 not_covered='generated messages: only the two match tables that select the codec per scalar type (lower_ty, ty_module) are covered, as verbatim fragments; repeated/map/oneof positions of the generator and map entry layout are not covered'),
     'C07': dict(verus=['skip', 'binary', 'binary_le', 'compact_skip', 'async_skip', 'async_binary', 'async_binary_le'], kani=[], assumptions=A_COMMON,
-                not_covered='decided: the recursive default skipper, against a recursive grammar of binary-protocol values (bskip_val: structs, lists, sets, maps nested to the depth limit): Ok(n) <=> the input starts with a well-formed value of that type occupying n bytes, which are exactly the bytes consumed; depth 0 => Err; termination by depth; and the refinement obligation that TBinaryProtocol<&mut Bytes> (both byte orders) implements the reader contract the skipper is verified against. The async default skipper (TAsyncInputProtocol::skip_till_depth) is verified against the same grammar (Ok <=> a well-formed value was consumed, exactly its bytes) with the refinement obligation for TAsyncBinaryProtocol<R> (both byte orders); that proof found G5 (fixed). Not decided: the iterative unchecked skipper (unsafe pointer reads); the async skipper over the async compact reader (it skips by calling read_*, so it does not share G4) is not verified against a compact value grammar'),
-    'C09': dict(verus=THRIFT_UNITS + ['skip', 'async_skip', 'async_binary', 'async_binary_le', 'async_compact'], kani=['a3_varint_decode_total', 'rwext_read_i16', 'rwext_read_i32', 'rwext_read_i64', 'rwext_read_u64'], assumptions=A_COMMON,
+                not_covered='decided: (1) the recursive default skipper and (2) the async default skipper, each against a recursive grammar of binary-protocol values (bskip_val: structs, lists, sets, maps nested to the depth limit), with the refinement obligations that TBinaryProtocol<&mut Bytes> and TAsyncBinaryProtocol<R> (both byte orders) implement the reader contracts the skippers are verified against; (3) the compact reader\'s own skipper (added by the G4 fix) against a recursive grammar of compact-protocol values (cskip_val: varints of bounded length, bool-in-header fields, short/long field headers with the i16 delta check, short/long list headers, one-byte empty map), on top of the re-verified real bodies of the compact reader: Ok(n) <=> the input starts with a well-formed value of that type occupying n bytes, which are exactly the bytes consumed, reader state (field-id stack, last id) restored; depth 0 => Err; termination by depth. Not decided: the iterative unchecked skipper (unsafe pointer reads, SmallVec stack); the async skipper over the async compact reader (it skips through read_*, so it never shared G4) is not verified against the compact grammar'),
+    'C09': dict(verus=THRIFT_UNITS + ['skip', 'compact_skip', 'async_skip', 'async_binary', 'async_binary_le', 'async_compact'], kani=['a3_varint_decode_total', 'rwext_read_i16', 'rwext_read_i32', 'rwext_read_i64', 'rwext_read_u64'], assumptions=A_COMMON,
                 not_covered=NOT_GEN + '; unchecked (unsafe) readers are outside the checked-reader scope of C09'),
     'C10': dict(verus=['prost'], kani=['pb_varint_decode_total', 'pb_varint_roundtrip', 'pb_varint_chain'], assumptions=A_COMMON[:1] + ['decode_varint_slice (unsafe, unrolled) enters Verus through its documented safety contract; Kani pb_varint_decode_total proves it on the real code', 'derive(Clone) of DecodeContext replaced by its field-wise expansion; core::cmp::min redirected to a usize wrapper'],
                 not_covered='decode_varint, decode_varint_slow, decode_key, check_wire_type, WireType::try_from, DecodeContext::{enter_recursion,limit_reached} are verified total (no panic, bounded consumption); skip_field (`break <value>` unsupported by Verus), merge_loop (FnMut closure), bytes/string/message/group/map merge and generated merge_field are not decided'),
